@@ -305,9 +305,9 @@ def gen_fault(rng, n, kinds=('g', 't')):
             elif fk == 'dupkey':
                 k = rkey(rng)
                 while k.lower() in t['quals'] or k.lower() == 'checksum': k = rkey(rng)
-                items.append(f'{k}=1')
+                items.append(f'{k}=1')                                        # (an empty first occurrence would free the key: ?y=&y=1 is legal)
                 if rng.random() < 0.4: items.append(f'{rcase(rng, k)}=')       # an empty occurrence in between does not free the key
-                bad = f'{rcase(rng, k)}={rng.choice(["2", "1", "%31"])}'
+                bad = f'{rcase(rng, k)}={rng.choice(["2", "1", "%31", "", ""])}'   # nor does an empty last one go unnoticed
             else:
                 bad = 'checksum=' + rng.choice(['sha1', 'sha1:0', 'sha1:0g', 'sha1:00,md5', 'sha1:00,SHA1:11', 'sha1:00,sha1:00', ':0',
                                                 'sha1:000', 'a:00,', ',a:00', 'a:0%2C', 'sha1:zz', 'Sha1:00,sHA1:00', 'ǅ:00,ǆ:11', 'a:00,sha1:zz', 'md5:00,sha1:0', 'md5:aa,md5:aa', 'md5:00,sha1:11,sha1:22,sha256:33', 'sha1:,sha1:', 'Æ:00,æ:11'])
@@ -492,7 +492,7 @@ def gen_lengths(kinds=('g', 't', 's')):
                 yield f'P {k} {hx("pkg:" + ty + "/n#" + "d/" * m + "../../x")}' if m <= 300 else f'P {k} {hx("pkg:" + ty + "/n")}'
                 yield f'P {k} {hx("pkg:" + ty + "/" + "d/" * m + "a//b/n")}' if m <= 300 else f'P {k} {hx("pkg:" + ty + "/n")}'
 # ------------------------------------------------------------------ G-types: type strings through the builder, every built-in carrier
-ODD_TYPES = ['Vendor.Internal-Pkgs.V24', 'Vendor.Internal-Pkg.V23', 'com.example.build-system.artifact-bundle', 'a' * 64, 'a,b', ',', '+npm', '0pypi', '00cargo', 'Np m', 'goLang!', 'A/b', 'NuG\u00e9t', 'aB c', 'Zz_', '\u212a8s', 'K8s', '7zip', '3D', '0', '9', 'ſ', 'İ', 'é', 'É', 'café', 'Über', 'ß', 'Σ', 'py٣', '²', 'Ⅻ', '中', 'a\u0301', 'T', 'Tt', 'tT', 'Maven', 'NuGet', 'c++X', 'a.b', '.', '+', '-', 'a-', ' t', 't ', 't\t', 't/n', 't%41', '']
+ODD_TYPES = ['éA', '日本Go', 'éa', 'Aé', 'ÉA', 'aéB', '\u00a0A', 'C++', 'SHA256', 'Alpm-X', 'ASP.Net', 'Vendor.Internal-Pkgs.V24', 'Vendor.Internal-Pkg.V23', 'com.example.build-system.artifact-bundle', 'a' * 64, 'a,b', ',', '+npm', '0pypi', '00cargo', 'Np m', 'goLang!', 'A/b', 'NuG\u00e9t', 'aB c', 'Zz_', '\u212a8s', 'K8s', '7zip', '3D', '0', '9', 'ſ', 'İ', 'é', 'É', 'café', 'Über', 'ß', 'Σ', 'py٣', '²', 'Ⅻ', '中', 'a\u0301', 'T', 'Tt', 'tT', 'Maven', 'NuGet', 'c++X', 'a.b', '.', '+', '-', 'a-', ' t', 't ', 't\t', 't/n', 't%41', '']
 def gen_types(kinds=('g', 's', 'b', 'o')):
     tys = list(ODD_TYPES)
     for c in range(128):
@@ -506,7 +506,7 @@ def gen_types(kinds=('g', 's', 'b', 'o')):
             yield f'B {k} {hx(ty)} {hx("")} -'
 
 # ------------------------------------------------------------------ G-build
-VALS = ['', 'x', '/ a/b', 'a/b /', 'x\u00a0', '\u2003x', 'x\x0b', 'a/!/b', '!a', '%40a', '@a', 'my%20org', 'my org', 'a%252Fb', 'A/b', '/', 'a//b/', 'docs/%2541', 'a%252Fb', 'docs../img/x.', 'lib./i', 'a/.../b', '...', '..../x', 'a///b', 'a/////b//c', '1.0/', 'x ', '\u3000x\u3000', 'vv1', 'Vv1', '%41', '..', 'a/../b', 'é', 'a@b?c#d', ' ', 'a&b=c+d', '"<>`{}', 'a:b']
+VALS = ['1%2E0', 'a%80', '1%252E0', 'a%2580', '%25', '%2525', '%%41', '', 'x', '/ a/b', 'a/b /', 'x\u00a0', '\u2003x', 'x\x0b', 'a/!/b', '!a', '%40a', '@a', 'my%20org', 'my org', 'a%252Fb', 'A/b', '/', 'a//b/', 'docs/%2541', 'a%252Fb', 'docs../img/x.', 'lib./i', 'a/.../b', '...', '..../x', 'a///b', 'a/////b//c', '1.0/', 'x ', '\u3000x\u3000', 'vv1', 'Vv1', '%41', '..', 'a/../b', 'é', 'a@b?c#d', ' ', 'a&b=c+d', '"<>`{}', 'a:b']
 QKEYS = ['chec\u212asum', 'vc\u017f_url', 'cla\u00dfifier', '3rd', '0', 'a/b', 'a[0]', 'k^', 'a', 'A', 'b', 'a.b', 'a_b', 'ab', '!', '', 'checksum', 'Checksum', 'repository_url', 'é', 'type', 'Z', 'File_Name', 'filename']
 QVALS = [' ', '\t', 'sha-256:aa,sha1:cc', 'md5:01,MD-6:02', 'sha224:00', 'a:00,sha1:zz', 'md5:00,sha1:0', 'a:ff', 'sha1:00,sha1:11', 'md5:aa,md5:aa', 'md5:00,sha1:11,sha1:22', '\u0130d:00ff', 'sha1:00,x\u0130:AB', 'shake256:' + 'ab' * 65, 'sha1:00,k12:' + 'CD' * 128, '', 'x', 'a&b=c', 'sha1:00', 'SHA1:ZZ', 'B:00,a:FF', 'sha1:0', 'a:,b:', 'v w', 'sha1:00,', ',sha1:00', 'sha1:', 'jar', 'sha3-256:aa,sha3:bb']
 CSOPS = [f'i.{hx("shake256")}.' + 'ab' * 65, f'w.{hx("k12")}.' + hx('AB' * 100), f'w.{hx("x")}.' + hx('zz' * 70), '-', f'i.{hx("sha1")}.00ff', f'i.{hx("SHA1")}.-', f'i.{hx("md5")}.0a+i.{hx("MD5")}.0b', f'w.{hx("sha1")}.{hx("zz")}',
@@ -724,6 +724,10 @@ def gen_pair(rng, n, kinds=('g', 't', 's', 'b', 'o')):
             for k, ty in (('g', hx('t')), ('s', hx('t')), ('b', hx('t')), ('t', '4')):
                 mk = lambda v: (f'B {k} {ty} {hx(v)} -' if f == 'N' else f'B {k} {ty} {hx("n")} ' + (f'Q:{hx("k")}:{hx(v)}' if f == 'Q' else f'{f}:{hx(v)}'))
                 yield f'K {mk(x)} ~ {mk(y)}'
+    for x, y in [('édition', 'Édition'), ('k', '\u212a'), ('ärch', 'Ärch'), ('arch', 'ARCH'), ('a.b', 'A.B'), ('ß', 'SS'), ('ǆ', 'ǅ'), ('σ', 'Σ'), ('a_b', 'a-b'), ('١', '1')]:
+        for k, ty in (('g', hx('t')), ('s', hx('t')), ('o', hx('t')), ('t', '4')):
+            yield f'K B {k} {ty} {hx("n")} Q:{hx(x)}:{hx("1")} ~ B {k} {ty} {hx("n")} Q:{hx(y)}:{hx("1")}'
+            yield f'K B {k} {ty} {hx("n")} Q:{hx(y)}:{hx("1")} ~ B {k} {ty} {hx("n")} Q:{hx(x)}:{hx("1")}'
     for a, b in [('pkg:t/n@1.0', 'pkg:t/n@1.0?a=1'), ('pkg:t/n?a=1#zzz', 'pkg:t/n?a=1&b=2#aaa'), ('pkg:t/n?arch=i386', 'pkg:t/n?arch=i386&distro=j'), ('pkg:npm/n?a=1', 'pkg:npm/n?a=1&b=2')]:
         for k in ('g', 's', 't'):
             if k == 't' and ':t/' in a: continue
@@ -794,7 +798,7 @@ def gen_pair(rng, n, kinds=('g', 't', 's', 'b', 'o')):
 
 # ------------------------------------------------------------------ G-shape
 HOOKS = ['o', 'eo', 'eb', 'be', 'ee', 'ebq', 'S', 'U', 'SU', 'sS', 'fn', 'nf', 'Sn', 'b', 'cb', 'bc', 'mb', 'x', 'qx', 'xq', 'k', 'f', 'n', 's', 'v', 'V', 'u', 'e', 'q', 'm', 'c', 'N', 't', 'nN', 'Nn', 'mc', 'cm', 'se', 'qf', 'fq', 'Vv', 'vV', 'nq', 'eq', 'sVuqc', 'tt', 'ne', 'mn', 'nm']
-FAM_INPUTS = ['pkg:other/%80', 'pkg:other/n@1%ff', 'pkg:other/a%2Fb/n', 'pkg:custom/n?checksum=B:00,a:FF', 'PKG:Custom/n', 'Pkg:custom/n@1?k=v#s', 'pkg:custom/n?k=%20', 'pkg:custom/n?checksum=%20', 'pkg:café/n', 'pkg:py٣/n', 'pkg:\u212a8s/n', 'pkg:Custom/n', 'pkg:7custom/n', 'pkg:custom/n?checksum=', 'pkg:custom/n?x=', 'pkg:custom/n?checksum=SHA1:AB', 'pkg:custom/n', 'pkg:CuStOm/N@1?k=v#s', 'pkg:other/a/b/n', 'pkg:custom', 'pkg:cus%74om/n', 'pkg:cu stom/n', 'pkg:/custom/n', 'pkg:custom/',
+FAM_INPUTS = ['pkg:custom/n?checksum=SH%C3%841:00,sha1:11', 'pkg:custom/n?checksum=%C3%86A:00', 'pkg:other/%80', 'pkg:other/n@1%ff', 'pkg:other/a%2Fb/n', 'pkg:custom/n?checksum=B:00,a:FF', 'PKG:Custom/n', 'Pkg:custom/n@1?k=v#s', 'pkg:custom/n?k=%20', 'pkg:custom/n?checksum=%20', 'pkg:café/n', 'pkg:py٣/n', 'pkg:\u212a8s/n', 'pkg:Custom/n', 'pkg:7custom/n', 'pkg:custom/n?checksum=', 'pkg:custom/n?x=', 'pkg:custom/n?checksum=SHA1:AB', 'pkg:custom/n', 'pkg:CuStOm/N@1?k=v#s', 'pkg:other/a/b/n', 'pkg:custom', 'pkg:cus%74om/n', 'pkg:cu stom/n', 'pkg:/custom/n', 'pkg:custom/',
               'pkg:custom/n?zz=&checksum=A:00', 'pkg:custom/n?checksum=bad', 'pkg:custom/n?=x', 'pkg:custom/%80', 'pkg:custom/n#%2e', 'x:custom/n', 'pkg:',
               'pkg:custom/n@%FF', 'pkg:custom/a%2Fb/n', 'pkg:Custom2/n', 'pkg:custom/n?Hk=old&ZZ=1']
 def gen_shape(rng, n):
